@@ -62,6 +62,56 @@ check(
     "DESIGN.md section 5 (C13)",
 )
 
+check(
+    "C08",
+    "exploration",
+    "Seeded FAMILIES of NVE runs from one phase-space point on the real integrator: dt, dt/2, dt/4 (trajectory-error and energy-fluctuation ratios must be 4 within a frozen window), forward / velocity reversal / backward (must retrace), and variants that must not change the trajectory (density reuse off, periodic COM removal from a P=L=0 state, crash+resume in the middle). Momenta are observed at every step through a wrapper; the HDF5 history is checked row by row (Ek, T, Ep, forces are those of the positions/velocities written for the same step) and against an independent NumPy velocity-Verlet with its own CODATA unit conversions.",
+    "Stub potential (exact forces known) decides order/reversibility/conservation; real SEQM families (randomly rotated, eps 1e-10) check ratios, drift, reversibility. The axis-aligned real start geometry is a committed known finding matched by driver=real AND unrotated geometry. Runs of 40-130 steps: ps-scale drift not reached.",
+    "deterministic simulation: seeded run families (dt-halving, velocity reversal, crash+resume) of the real MD engine, per-step invariants through method wrapping, history oracles against an independent reference integrator",
+    "mdsim",
+    "DESIGN.md section 5 (C08)",
+)
+
+check(
+    "C09",
+    "exploration",
+    "Four layers on the real XL_BOMD/KSA_XL_BOMD objects. Recurrence: the real integrator step (real coefficient window and history-slot arithmetic) driven with synthetic densities on a frozen geometry; fixed point to round-off and bounded, non-growing response to a perturbation injected at every buffer phase, for every k in 3..9, every phase, a gamma grid and both variants - the k x phase space is enumerated completely in every run. Restart: crash+resume at every buffer phase must continue exactly (density made visible in the files). Consistency: real SEQM, XL energy/forces at P = converged D equal the SCF ones (plain, Krylov rank 1-4, T_el). Scaling: real SEQM shadow-energy fluctuation ~ dt^2, no drift, convergence to the BOMD trajectory.",
+    "Stability is sampled over a response grid (not a root-locus proof). Frozen bounds: amplification <= 2, growth <= 1.05, fixed point 1e-12. Excited-state XL-BOMD only at smoke level (C10 real stratum).",
+    "deterministic simulation: real XL-BOMD step driven by a stub density response over the complete k x buffer-phase grid, crash/restart at every phase, plus seeded real-driver families",
+    "mdsim",
+    "DESIGN.md section 5 (C09)",
+)
+
+check(
+    "C12",
+    "exploration",
+    "The simulator owns the random stream: a recording proxy for torch.randn_like captures the noise of EVERY thermostat application and a wrapper captures velocities before/after, so the fluctuation-dissipation update v' = c1 v + c2 xi is checked exactly (1e-6, independent CODATA constants) over dt/tau in 1e-4..10, T in 0..2000 K, masses H..Cl, padded batches, Langevin BOMD, damped XL-BOMD/KSA and surface hopping; also the schedule (two half-step applications around the force evaluation, first and last operation of the step), the invariance identity on the engine's own tensors, the limits (tau=inf equals NVE bit for bit, deviation ~ tau^-1/2, T=0 only removes energy) and a deliberately coarse end-to-end mean temperature on exactly solvable stub systems.",
+    "The statistical layer is coarse by design (max(3%, 6 sigma)); the exact layers decide the identity. Configurational sampling accuracy on anharmonic real surfaces is not reached.",
+    "deterministic simulation: simulator-owned RNG (recording proxy) turns the statistical statement into an exact per-application check; seeded (dt, tau, T, mass, engine) exploration",
+    "mdsim",
+    "DESIGN.md section 5 (C12)",
+)
+
+check(
+    "C15",
+    "exploration",
+    "One process as a shared-state machine: seeded call histories (2-8 operations) over a pool of ~45 heterogeneous public-API jobs (single points over methods/solvers/spin/charge, CIS/RPA, differentiable jobs split into forward and backward phases, short MD runs of four engines, steepest descent, jobs the library rejects), with generated reuse of Constants / settings dictionary / driver and MD-driver objects, interleaved and summed backward passes, call-boundary aborts, prior RNG use and thread counts. Every job is compared with the same job run as the first and only thing in a fresh process: bit for bit at one thread, 1e-9 across thread counts; success/failure parity.",
+    "Sequential callers only (the statement speaks of compute threads, not caller threads). A driver is reused only for molecules whose elements it was built for. The native intra-op pool's own schedule is not controlled.",
+    "deterministic simulation: seeded schedules of API calls (interleavings of forward/backward phases, object reuse, injected aborts) against a fresh-process reference model",
+    "histsim",
+    "DESIGN.md section 5 (C15)",
+)
+
+check(
+    "C20",
+    "exploration",
+    "The real Geometry_Optimization_SD.run/onestep with a forward hook on its driver recording every evaluation (geometry, energy, forces). Trace oracles: energy never rises for step factors <= 1/L; each evaluation is at x + alpha F of the previous one; padding atoms never move; the run stops exactly at the first evaluation whose largest force component is <= tol or at the cap; the printed verdict says which; returned (max force, dE) and molecule.Etot/force are those of the last evaluation; a molecule's path does not depend on its batch mates (solo twin); a faulted carried density between evaluations does not change the path beyond the SCF threshold.",
+    "'Sufficiently small' is made precise from a crude curvature bound of the stub potential; real SEQM uses alpha <= 0.005.",
+    "deterministic simulation: stateful optimiser stepped under an observing seam, trace oracles, seeded configurations incl. caps hit before convergence and carried-density faults",
+    "mdsim",
+    "DESIGN.md section 5 (C20)",
+)
+
 PENDING = {}
 
 
